@@ -30,6 +30,7 @@ Vocabulary (`Goat/Proofs/MutexMain.lean`, namespace `Goat.Mutex`):
   `step v s i`        : `some s'` if holder `i` can move in `s`, `none` if it is blocked or finished
 -/
 import Goat.Proofs.MutexMain
+import Goat.Proofs.MutexTasksMain
 
 namespace Goat.C15
 
@@ -164,5 +165,184 @@ theorem monitor_accepts_iff (ivs : List Interval) :
 -- two writers of resource 7 with intersecting intervals are rejected; readers are accepted
 example : monitor [⟨0, [(7, true)], 1, 4⟩, ⟨1, [(7, true)], 3, 6⟩] = some (0, 1, 7) := by decide
 example : monitor [⟨0, [(7, false)], 1, 4⟩, ⟨1, [(7, false)], 3, 6⟩] = none := by decide
+
+/-! ### 6. The holders are pipeline tasks: the wait list first, then the lock map
+
+Model: `Goat/Model/MutexTasks.lean` (namespace `Goat.MutexTasks`).  `tsys v tasks` is the transition
+system of `tasks.length` tasks run by `Runner.runGo`: task `i` first goes through `waitForTasks` (one
+step per entry of its wait list, enabled only when that task has ended — its deferred `Unlock` and
+then `task.Close()` have run; an entry that ended with an error ends the waiting task without any
+lock), THEN calls `SharedMutex.Lock(tasks[i].map)`, runs its body, unlocks, ends.  The lock table is
+the one of sections 1–5 (both variants), so the lock-level steps are literally `Goat.Mutex.step`.
+Every theorem is for all numbers of tasks, all lock maps, all wait lists over earlier tasks
+(`WellFormed`, what `validWaitList` guarantees at `Create`), all failing subsets, all schedules.
+
+  `MutexTasks.Task`          : wait list (indices), lock map, whether the body fails
+  `MutexTasks.WellFormed`    : every wait list names tasks with a smaller index
+  `MutexTasks.AllFinished`   : every task has ended
+  `MutexTasks.finishedAt ts j` / `failedAt tasks ts j` : task `j` has ended / ended with an error
+  `ts.lock`                  : the lock table (`Goat.Mutex.State`), entry `i` belongs to task `i`
+  `ts.stage[i]`              : `.waiting k` (in `waitForTasks`), `.running` (between `Lock` and the end
+                               of `Unlock`), `.aborted` (returned from `waitForTasks` with the error)
+-/
+
+/-- Whatever the tasks, their maps, their wait lists and the interleaving so far: as long as some task
+has not ended, some task can move.  (Tasks still in `waitForTasks` hold nothing, so among the tasks
+that called `Lock` the greatest-awaited-name argument of `deadlock_free` applies unchanged; if the
+lock table is idle, the waiting task with the least index finds its prerequisite ended.) -/
+theorem tasks_deadlock_free (v : Variant) (tasks : List MutexTasks.Task) (hwf : MutexTasks.WellFormed tasks)
+    (hmaps : ∀ t ∈ tasks, NodupNames t.map) (sched : List Nat)
+    (hact : ¬ MutexTasks.AllFinished tasks ((MutexTasks.tsys v tasks).run sched)) :
+    ∃ i, (MutexTasks.step v tasks ((MutexTasks.tsys v tasks).run sched) i).isSome = true :=
+  MutexTasks.tasks_deadlock_free_main v tasks hwf hmaps (run_reachable _ sched) hact
+
+/-- No schedule contains more than `|wait list| + 4·|map| + 5` moves per task. -/
+theorem tasks_steps_bounded (v : Variant) (tasks : List MutexTasks.Task) (sched : List Nat) :
+    ((MutexTasks.tsys v tasks).fired sched).length ≤
+      (tasks.map fun t => t.waits.length + 4 * t.map.length + 5).sum :=
+  MutexTasks.tasks_fired_bounded_main v tasks sched
+
+/-- From every reachable state all tasks can be brought to their end: every task gets its turn. -/
+theorem tasks_all_finish (v : Variant) (tasks : List MutexTasks.Task) (hwf : MutexTasks.WellFormed tasks)
+    (hmaps : ∀ t ∈ tasks, NodupNames t.map) (sched : List Nat) :
+    ∃ more : List Nat, MutexTasks.AllFinished tasks ((MutexTasks.tsys v tasks).run (sched ++ more)) := by
+  obtain ⟨more, h⟩ := MutexTasks.tasks_can_finish_main v tasks hwf hmaps (run_reachable (MutexTasks.tsys v tasks) sched)
+  exact ⟨more, by rw [Sys.run, runFrom_append]; exact h⟩
+
+/-- Exclusion is unaffected by the waiting phase: two tasks inside their bodies at the same time have
+compatible lock maps. -/
+theorem tasks_exclusion (v : Variant) (tasks : List MutexTasks.Task) (hmaps : ∀ t ∈ tasks, NodupNames t.map)
+    (sched : List Nat) (i j : Nat) (hne : i ≠ j) (ti tj : MutexTasks.Task)
+    (hti : tasks[i]? = some ti) (htj : tasks[j]? = some tj)
+    (in1 : InsideAt ((MutexTasks.tsys v tasks).run sched).lock i)
+    (in2 : InsideAt ((MutexTasks.tsys v tasks).run sched).lock j) :
+    ∀ m w1 w2, (m, w1) ∈ ti.map → (m, w2) ∈ tj.map → w1 = false ∧ w2 = false :=
+  MutexTasks.tasks_exclusion_main v tasks hmaps (run_reachable _ sched) hne hti htj in1 in2
+
+/-- Row level, at every instant: a resource held for writing by one task is held by no other task. -/
+theorem tasks_exclusion_rows (v : Variant) (tasks : List MutexTasks.Task) (hmaps : ∀ t ∈ tasks, NodupNames t.map)
+    (sched : List Nat) (i j : Nat) (hne : i ≠ j) (m : Name) (w : Bool)
+    (h1 : HoldsAt ((MutexTasks.tsys v tasks).run sched).lock i (m, true)) :
+    ¬ HoldsAt ((MutexTasks.tsys v tasks).run sched).lock j (m, w) :=
+  MutexTasks.tasks_exclusion_rows_main v tasks hmaps (run_reachable _ sched) hne h1
+
+/-- A task that is still waiting for its prerequisites (or gave up because one of them failed) holds
+no resource — the fact the swapped order destroys. -/
+theorem tasks_waiting_hold_nothing (v : Variant) (tasks : List MutexTasks.Task) (hmaps : ∀ t ∈ tasks, NodupNames t.map)
+    (sched : List Nat) (i : Nat) (st : MutexTasks.Stage)
+    (hs : ((MutexTasks.tsys v tasks).run sched).stage[i]? = some st) (hne : st ≠ .running) (r : Row) :
+    ¬ HoldsAt ((MutexTasks.tsys v tasks).run sched).lock i r :=
+  MutexTasks.tasks_waiting_holds_nothing_main v tasks hmaps (run_reachable _ sched) hs hne r
+
+/-- A task is inside its body only when every task of its wait list has ended — has released all its
+resources and closed — without error. -/
+theorem tasks_body_after_prereqs (v : Variant) (tasks : List MutexTasks.Task) (hmaps : ∀ t ∈ tasks, NodupNames t.map)
+    (sched : List Nat) (i : Nat) (t : MutexTasks.Task) (ht : tasks[i]? = some t)
+    (hin : InsideAt ((MutexTasks.tsys v tasks).run sched).lock i) :
+    ∀ j ∈ t.waits, MutexTasks.finishedAt ((MutexTasks.tsys v tasks).run sched) j = true ∧
+      MutexTasks.failedAt tasks ((MutexTasks.tsys v tasks).run sched) j = false ∧
+      ∀ r, ¬ HoldsAt ((MutexTasks.tsys v tasks).run sched).lock j r := by
+  intro j hj
+  obtain ⟨h1, h2⟩ := MutexTasks.tasks_body_after_prereqs_main v tasks hmaps (run_reachable _ sched) ht hin j hj
+  exact ⟨h1, h2, MutexTasks.tasks_finished_holds_nothing_main v tasks hmaps (run_reachable _ sched) h1⟩
+
+/-- Tasks are serialised by wait lists and by conflicting maps only: once past `waitForTasks`, a task
+whose map is compatible with every other task's map can always move. -/
+theorem tasks_compatible_never_blocked (v : Variant) (tasks : List MutexTasks.Task)
+    (hmaps : ∀ t ∈ tasks, NodupNames t.map) (sched : List Nat) (i : Nat)
+    (hc : ∀ mi, (MutexTasks.mapsOf tasks)[i]? = some mi → ∀ j mj, j ≠ i →
+      (MutexTasks.mapsOf tasks)[j]? = some mj → MapsCompatible mi mj)
+    (hact : ActiveAt ((MutexTasks.tsys v tasks).run sched).lock i) :
+    (MutexTasks.step v tasks ((MutexTasks.tsys v tasks).run sched) i).isSome = true :=
+  MutexTasks.tasks_never_blocked_main v tasks hmaps (run_reachable _ sched) hc hact
+
+-- non-vacuity.  A = {0:W}; B = {1:W, 0:W}; D waits for B and needs {1:W} (the adversarial family of the
+-- check: D and its prerequisite B share resource 1, A delays B on the smaller resource 0).
+example : MutexTasks.WellFormed
+    [⟨[], [(0, true)], false⟩, ⟨[], [(1, true), (0, true)], false⟩, ⟨[1], [(1, true)], false⟩] := by
+  intro i t ht j hj
+  match i, ht with
+  | 0, ht => simp at ht; subst ht; simp at hj
+  | 1, ht => simp at ht; subst ht; simp at hj
+  | 2, ht => simp at ht; subst ht; simp at hj; omega
+  | (k + 3), ht => simp at ht
+
+example : ∀ t ∈ ([⟨[], [(0, true)], false⟩, ⟨[], [(1, true), (0, true)], false⟩, ⟨[1], [(1, true)], false⟩] :
+    List MutexTasks.Task), NodupNames t.map := by
+  intro t ht; simp at ht; rcases ht with rfl | rfl | rfl <;> simp [NodupNames]
+
+-- D moves first as often as it likes: it stays in `waitForTasks`, holds nothing, and B (delayed by A) is not finished
+example : ¬ MutexTasks.AllFinished
+    [⟨[], [(0, true)], false⟩, ⟨[], [(1, true), (0, true)], false⟩, ⟨[1], [(1, true)], false⟩]
+    ((MutexTasks.tsys .pref
+      [⟨[], [(0, true)], false⟩, ⟨[], [(1, true), (0, true)], false⟩, ⟨[1], [(1, true)], false⟩]).run
+      [2, 2, 0, 0, 0, 0, 1, 1, 2]) := by
+  intro h; have := h 2 (by decide); revert this; decide
+
+-- … and after A and B have ended D is inside its body (hypothesis of `tasks_body_after_prereqs` for i = 2)
+example : InsideAt ((MutexTasks.tsys .plain
+      [⟨[], [(0, true)], false⟩, ⟨[], [(1, true), (0, true)], false⟩, ⟨[1], [(1, true)], false⟩]).run
+      [0, 0, 0, 1, 0, 0, 0, 1, 1, 1, 1, 1, 1, 1, 2, 2, 2, 2]).lock 2 := ⟨_, rfl, rfl⟩
+
+-- two readers of resource 0, the second waiting for a third task, are inside together (`tasks_exclusion`)
+example : InsideAt ((MutexTasks.tsys .pref
+      [⟨[], [(0, false)], false⟩, ⟨[], [], false⟩, ⟨[1], [(0, false)], false⟩]).run
+      [0, 0, 0, 1, 1, 1, 1, 2, 2, 2, 2]).lock 0 ∧
+    InsideAt ((MutexTasks.tsys .pref
+      [⟨[], [(0, false)], false⟩, ⟨[], [], false⟩, ⟨[1], [(0, false)], false⟩]).run
+      [0, 0, 0, 1, 1, 1, 1, 2, 2, 2, 2]).lock 2 := by
+  constructor <;> exact ⟨_, rfl, rfl⟩
+
+/-! ### 7. The order is what the theorem uses -/
+
+/-- With the two statements swapped (`tsysSwapped`: `SharedMutex.Lock(map)` first, `waitForTasks` while
+holding the map) two tasks suffice for a state in which nobody has ended and no step is enabled — for
+both lock variants: task 1 waits for task 0, both write resource 0, task 1 reaches `Lock` first.
+(`tsys` on the same two tasks cannot get stuck: instance of `tasks_deadlock_free`.) -/
+theorem lock_before_wait_can_deadlock (v : Variant) :
+    ∃ (tasks : List MutexTasks.Task) (sched : List Nat),
+      MutexTasks.WellFormed tasks ∧ (∀ t ∈ tasks, NodupNames t.map) ∧ tasks.length = 2 ∧
+      ¬ AllDone ((MutexTasks.tsysSwapped v tasks).run sched).lock ∧
+      Stuck (MutexTasks.tsysSwapped v tasks) ((MutexTasks.tsysSwapped v tasks).run sched) := by
+  have hwf : MutexTasks.WellFormed [⟨[], [(0, true)], false⟩, ⟨[0], [(0, true)], false⟩] := by
+    intro i t ht j hj
+    match i, ht with
+    | 0, ht => simp at ht; subst ht; simp at hj
+    | 1, ht => simp at ht; subst ht; simp at hj; omega
+    | (k + 2), ht => simp at ht
+  have hnd : ∀ t ∈ ([⟨[], [(0, true)], false⟩, ⟨[0], [(0, true)], false⟩] : List MutexTasks.Task),
+      NodupNames t.map := by
+    intro t ht; simp at ht; rcases ht with rfl | rfl <;> simp [NodupNames]
+  cases v with
+  | plain =>
+    -- task 1 acquires resource 0 and is inside `Lock … Unlock`; it now waits for task 0, which needs resource 0
+    refine ⟨[⟨[], [(0, true)], false⟩, ⟨[0], [(0, true)], false⟩], [1, 1], hwf, hnd, rfl, ?_, ?_⟩
+    · intro h; have := h _ (List.mem_cons_self ..); revert this; decide
+    · intro i
+      match i with
+      | 0 => rfl
+      | 1 => rfl
+      | (k + 2) => rfl
+  | pref =>
+    refine ⟨[⟨[], [(0, true)], false⟩, ⟨[0], [(0, true)], false⟩], [1, 1, 1], hwf, hnd, rfl, ?_, ?_⟩
+    · intro h; have := h _ (List.mem_cons_self ..); revert this; decide
+    · intro i
+      match i with
+      | 0 => rfl
+      | 1 => rfl
+      | (k + 2) => rfl
+
+/-! ### 8. The order monitor used on traces of the real runner -/
+
+/-- The order monitor accepts recorded body intervals exactly when every recorded body of a task was
+entered after, for each task of its wait list, some recorded body of that task had been left. -/
+theorem order_monitor_accepts_iff (waits : List (List Nat)) (ivs : List Interval) :
+    MutexTasks.orderMonitor waits ivs = none ↔
+      ∀ x ∈ ivs, ∀ j ∈ waits.getD x.holder [], ∃ y ∈ ivs, y.holder = j ∧ y.exit < x.enter :=
+  MutexTasks.orderMonitor_none_iff waits ivs
+
+-- task 1 waits for task 0: entering its body before task 0 left is rejected, afterwards accepted
+example : MutexTasks.orderMonitor [[], [0]] [⟨0, [(7, true)], 1, 4⟩, ⟨1, [], 3, 6⟩] = some (1, 0) := by decide
+example : MutexTasks.orderMonitor [[], [0]] [⟨0, [(7, true)], 1, 4⟩, ⟨1, [], 5, 6⟩] = none := by decide
 
 end Goat.C15
